@@ -79,7 +79,7 @@ func main() {
 		},
 		Post: func(c *ev.Check, outs []*run.Outcome) {
 			for _, k := range []string{"agree.raw", "agree.client", "agree.bits_set", "agree.banned_slots", "agree.servers_in_reply", "agree.migration_in_reply",
-				"refusal.raw", "refusal.client", "agree.burst", "agree.client_relayed", "rejected.large_list_tail", "stale_round.judged", "stale_round.unchanged", "rotation.injected_at.sync.ready", "rotation.injected_at.sync.afterCopy", "rotation.under_load", "rotation.reply_is_state_before", "rotation.reply_is_state_after", "tamper.bitflip", "tamper.truncate", "tamper.extend_adjusted", "tamper.resign_otherkey",
+				"refusal.raw", "refusal.client", "agree.burst", "agree.client_relayed", "rejected.large_list_tail", "rejected.twin_signature", "recovery.single_server", "recovery.three_servers", "stale_round.judged", "stale_round.unchanged", "rotation.injected_at.sync.ready", "rotation.injected_at.sync.afterCopy", "rotation.under_load", "rotation.reply_is_state_before", "rotation.reply_is_state_after", "tamper.bitflip", "tamper.truncate", "tamper.extend_adjusted", "tamper.resign_otherkey",
 				"accepted.time_within", "rejected.time_outside", "rejected.devkey", "rejected.entry_sig", "rejected.mig_outer", "rejected.mig_inner",
 				"fullround.rejected_unchanged", "fullround.accepted", "states.offset_0", "states.offset_2016", "states.offset_4032"} {
 				c.Require(k, 1)
@@ -1387,6 +1387,45 @@ func (s *st) variants(genuine []byte, full bool) (vs []variant, sample []variant
 	add("valid.devkey_other_device", 1, mustReject, rebuilt(s.Key.Priv, func(r *refenc.SyncReply) { r.DevKey = other.Pub }))
 	add("valid.devkey_other_device", 2, mustReject, rebuilt(s.Key.Priv, func(r *refenc.SyncReply) { r.DevKey[31] ^= 1 }))
 
+	// algebraic twins (r, N-s) of genuine signatures: nobody needs a key for them
+	add("twin.server_sig", 0, mustReject, func(g []byte) []byte {
+		var sig [64]byte
+		copy(sig[:], g[len(g)-64:])
+		sig = refenc.TwinSig(sig)
+		copy(g[len(g)-64:], sig[:])
+		return g
+	})
+	pick("twin")
+	for i := 0; i < 3; i++ {
+		i := i
+		add("twin.entry_gca_sig", i, mustReject, rebuilt(s.Key.Priv, func(r *refenc.SyncReply) {
+			if len(r.Servers) == 0 {
+				k := s.GCA
+				if s.mig != nil {
+					k = s.G2
+				}
+				r.Servers = append(r.Servers, s.entry(k))
+			}
+			j := i % len(r.Servers)
+			r.Servers[j].Sig = refenc.TwinSig(r.Servers[j].Sig)
+			if s.mig != nil {
+				r.MigSig = refenc.Migration{Equipment: r.DevKey, NewGCA: r.NewGCA, NewID: r.NewID, Servers: r.Servers}.Signed(s.GCA.Priv).Sig
+			}
+		}))
+		if i == 0 {
+			pick("twin")
+		}
+	}
+	add("twin.migration_sig", 0, mustReject, rebuilt(s.Key.Priv, func(r *refenc.SyncReply) {
+		if s.mig == nil { // make it a genuine order first
+			r.NewGCA, r.NewID = s.G2.Pub, 99
+			r.Servers = []refenc.AuthServer{s.entry(s.G2)}
+			r.MigSig = refenc.Migration{Equipment: r.DevKey, NewGCA: r.NewGCA, NewID: r.NewID, Servers: r.Servers}.Signed(s.GCA.Priv).Sig
+		}
+		r.MigSig = refenc.TwinSig(r.MigSig)
+	}))
+	pick("twin")
+
 	// long lists: one entry without the required signature among the last
 	// three of 65..67 entries (and a genuine long list as the control)
 	inner := s.GCA
@@ -1800,6 +1839,135 @@ func (s *st) staleRound(dir string, offset uint32, asOrder bool) {
 	}
 }
 
+// recovery: rejecting a reply must leave the client as it was, also in what it
+// does next. After a round whose replies all had to be rejected, the same
+// servers answer genuinely: the next round must contact one of them and
+// succeed. (Each round of the client starts without any memory of failed
+// servers; only the map, which a rejected reply must not touch, says whom it
+// may contact.)
+func (s *st) recovery(dir string, sample []variant, offset uint32) {
+	type relay struct {
+		m   *mitm
+		key refenc.Key
+	}
+	reachable := func(rs []relay) bool {
+		for _, x := range rs {
+			c, err := net.DialTimeout("tcp", fmt.Sprintf("127.0.0.1:%d", x.m.Port), 5*time.Second)
+			if err != nil {
+				return false
+			}
+			c.Close()
+		}
+		return true
+	}
+	conns := func(rs []relay) int {
+		n := 0
+		for _, x := range rs {
+			_, _, k, _ := x.m.last()
+			n += k
+		}
+		return n
+	}
+	episode := func(name string, rs []relay, bad variant, idx int) {
+		d := filepath.Join(dir, fmt.Sprintf("recovery-%s-%d", name, idx))
+		env := drv.ClientEnv{Dir: d, Key: s.A.Key, GCA: s.GCA.Pub, ShortID: s.A.ID, LastSync: drv.FreshSyncStamp()}
+		for _, x := range rs {
+			env.Servers = append(env.Servers, refenc.MapEntry{Pub: x.key.Pub, Location: "127.0.0.1", TCP: x.m.Port, UDP: s.UDP})
+		}
+		if err := env.Write(); err != nil {
+			s.r.Inconc(err.Error())
+			return
+		}
+		defer os.RemoveAll(d)
+		c, err := drv.StartClient(d)
+		if err != nil {
+			s.r.Inconc("client start: " + err.Error())
+			return
+		}
+		defer closeClient(c)
+		// every server answers with a reply that has to be rejected
+		for _, x := range rs {
+			x := x
+			x.m.set(func(g []byte) []byte { return bad.mut(rebuilt(x.key.Priv, nil)(g)) })
+			if x.key.Pub == s.Key.Pub {
+				x.m.set(bad.mut)
+			}
+		}
+		before := viewOf(c)
+		n0 := conns(rs)
+		run.Op("recovery %s: round with rejected replies (class %s)", name, bad.class)
+		ret1 := c.VerifSyncOnce(offset)
+		n1 := conns(rs)
+		if df := before.diff(viewOf(c)); df != "" || ret1 {
+			s.r.Count("recovery.first_round_not_a_rejection", 1) // judged by the other oracles
+			return
+		}
+		if n1-n0 < len(rs) {
+			s.r.Count("recovery.not_all_servers_failed_once", 1)
+			if n1 == n0 {
+				return
+			}
+		}
+		// now every server answers genuinely
+		for _, x := range rs {
+			x.m.set(rebuilt(x.key.Priv, nil))
+			if x.key.Pub == s.Key.Pub {
+				x.m.set(nil)
+			}
+		}
+		contacted, succeeded := false, false
+		for attempt := 0; attempt < 3 && !succeeded; attempt++ {
+			a0 := conns(rs)
+			run.Op("recovery %s: round with genuine replies (attempt %d)", name, attempt)
+			ok := c.VerifSyncOnce(offset)
+			if conns(rs) > a0 {
+				contacted = true
+			}
+			succeeded = ok
+		}
+		s.r.Eval(1)
+		s.r.Nontrivial(fmt.Sprintf("%s/recovery/%s/%d", s.label, name, idx))
+		rp := s.replay(map[string]interface{}{"episode": name, "servers": len(rs), "rejected_class": bad.class, "rejected_pos": bad.pos})
+		switch {
+		case succeeded:
+			s.r.Count("recovery."+name, 1)
+		case !contacted && reachable(rs):
+			s.r.Violationf("rejected-reply-changed-behaviour:server-not-contacted-again", rp, "after a round in which the replies of all %d configured servers had to be rejected (class %s) and were, three further rounds did not contact any of them although they accept connections and answer genuinely now: rejecting a reply changed what the client does", len(rs), bad.class)
+		case !contacted:
+			s.r.Inconc("recovery: relays not reachable")
+		default:
+			s.r.Count("recovery.contacted_but_failed", 1) // slow machine or a matter for the genuine-round oracle
+		}
+	}
+	var rejects []variant
+	for _, v := range sample {
+		if v.expect == mustReject {
+			rejects = append(rejects, v)
+		}
+	}
+	if len(rejects) == 0 {
+		return
+	}
+	one := []relay{{s.m, s.Key}}
+	for i := 0; i < 3; i++ {
+		episode("single_server", one, rejects[(i*7+int(s.batch.Seed&15))%len(rejects)], i)
+	}
+	three := []relay{{s.m, s.Key}}
+	for i := 0; i < 2; i++ {
+		m, err := newMITM(fmt.Sprintf("127.0.0.1:%d", s.TCP))
+		if err != nil {
+			s.r.Inconc(err.Error())
+			return
+		}
+		defer m.Close()
+		three = append(three, relay{m, refenc.GenKey(s.rng)})
+	}
+	for i := 0; i < 2; i++ {
+		episode("three_servers", three, rejects[(i*5+3+int(s.batch.Seed&15))%len(rejects)], i)
+	}
+	s.m.set(nil)
+}
+
 func (s *st) fullRounds(dir string, sample []variant, offset uint32) {
 	c, d, err := s.newRoundClient(dir, 0)
 	if err != nil {
@@ -2110,6 +2278,8 @@ func child(b run.Batch, r *ev.Result) {
 			r.Count(counts[v.class], 1)
 		case len(v.class) > 15 && v.class[:15] == "resign_otherkey":
 			r.Count("tamper.resign_otherkey", 1)
+		case len(v.class) > 5 && v.class[:5] == "twin.":
+			r.Count("rejected.twin_signature", 1)
 		case v.class == "valid.large_list_tail_unsigned":
 			r.Count("rejected.large_list_tail", 1)
 		case len(v.class) >= 15 && (v.class[:15] == "valid.entry_sig" || v.class[:15] == "valid.entry_dup"):
@@ -2123,6 +2293,9 @@ func child(b run.Batch, r *ev.Result) {
 	r.Sample(map[string]interface{}{"state": s.label, "reply_len": len(genuine), "cases": len(vs), "genuine": hx(genuine[:80])})
 	if slice == 0 {
 		s.fullRounds(b.Dir, sample, target)
+		if r.NumViolations() == 0 {
+			s.recovery(b.Dir, sample, target)
+		}
 		if r.NumViolations() == 0 {
 			s.staleRound(b.Dir, target, sidx%2 == 1)
 		}
